@@ -1784,7 +1784,13 @@ func isValidLiteralValue(ttype Input, valueAST ast.Value) (bool, []string) {
 			}
 		}
 		// Ensure every defined field is valid.
-		for fieldName, field := range fields {
+		fieldNames := make([]string, 0, len(fields))
+		for fieldName := range fields {
+			fieldNames = append(fieldNames, fieldName)
+		}
+		sort.Strings(fieldNames)
+		for _, fieldName := range fieldNames {
+			field := fields[fieldName]
 			var fieldASTValue ast.Value
 			if fieldAST := fieldASTMap[fieldName]; fieldAST != nil {
 				fieldASTValue = fieldAST.Value
